@@ -337,38 +337,36 @@ func (x *Exec) assumeHeapWF(st *State) {
 }
 
 func (x *Exec) heapWF(key string, m *Term, a0 *Term) {
-	{
-		srt := m.S
-		if srt.K != KArr || srt.Dom != IntS {
-			return
+	srt := m.S
+	if srt.K != KArr || srt.Dom != IntS {
+		return
+	}
+	r := Var("r!", IntS)
+	k := Var("k!", IntS)
+	isRef := strings.HasSuffix(key, "!Ref")
+	inRange := func(t *Term) *Term { return And(Le(IntLit(0), t), Lt(t, a0)) }
+	sliceOK := func(t *Term) *Term {
+		return And(Le(IntLit(0), mk("s-arr", "", IntS, nil, t)), Lt(mk("s-arr", "", IntS, nil, t), a0),
+			Le(IntLit(0), mk("s-off", "", IntS, nil, t)), Le(IntLit(0), mk("s-len", "", IntS, nil, t)))
+	}
+	switch {
+	case srt.Rng == IntS && isRef:
+		sel := mk("select", "", IntS, nil, m, r)
+		x.vc.assume(Forall([]*Term{r}, Implies(Lt(r, a0), inRange(sel)), sel))
+	case srt.Rng == SliceS:
+		sel := mk("select", "", SliceS, nil, m, r)
+		x.vc.assume(Forall([]*Term{r}, Implies(Lt(r, a0), sliceOK(sel)), sel))
+	case srt.Rng.K == KArr && srt.Rng.Rng == IntS && isRef:
+		if srt.Rng.Dom != IntS {
+			k = Var("k!", srt.Rng.Dom)
 		}
-		r := Var("r!", IntS)
-		k := Var("k!", IntS)
-		isRef := strings.HasSuffix(key, "!Ref")
-		inRange := func(t *Term) *Term { return And(Le(IntLit(0), t), Lt(t, a0)) }
-		sliceOK := func(t *Term) *Term {
-			return And(Le(IntLit(0), mk("s-arr", "", IntS, nil, t)), Lt(mk("s-arr", "", IntS, nil, t), a0),
-				Le(IntLit(0), mk("s-off", "", IntS, nil, t)), Le(IntLit(0), mk("s-len", "", IntS, nil, t)))
+		sel := mk("select", "", IntS, nil, mk("select", "", srt.Rng, nil, m, r), k)
+		x.vc.assume(Forall([]*Term{r, k}, Implies(Lt(r, a0), inRange(sel)), sel))
+	case srt.Rng.K == KArr && srt.Rng.Rng == SliceS:
+		if srt.Rng.Dom != IntS {
+			k = Var("k!", srt.Rng.Dom)
 		}
-		switch {
-		case srt.Rng == IntS && isRef:
-			sel := mk("select", "", IntS, nil, m, r)
-			x.vc.assume(Forall([]*Term{r}, Implies(Lt(r, a0), inRange(sel)), sel))
-		case srt.Rng == SliceS:
-			sel := mk("select", "", SliceS, nil, m, r)
-			x.vc.assume(Forall([]*Term{r}, Implies(Lt(r, a0), sliceOK(sel)), sel))
-		case srt.Rng.K == KArr && srt.Rng.Rng == IntS && isRef:
-			if srt.Rng.Dom != IntS {
-				k = Var("k!", srt.Rng.Dom)
-			}
-			sel := mk("select", "", IntS, nil, mk("select", "", srt.Rng, nil, m, r), k)
-			x.vc.assume(Forall([]*Term{r, k}, Implies(Lt(r, a0), inRange(sel)), sel))
-		case srt.Rng.K == KArr && srt.Rng.Rng == SliceS:
-			if srt.Rng.Dom != IntS {
-				k = Var("k!", srt.Rng.Dom)
-			}
-			sel := mk("select", "", SliceS, nil, mk("select", "", srt.Rng, nil, m, r), k)
-			x.vc.assume(Forall([]*Term{r, k}, Implies(Lt(r, a0), sliceOK(sel)), sel))
-		}
+		sel := mk("select", "", SliceS, nil, mk("select", "", srt.Rng, nil, m, r), k)
+		x.vc.assume(Forall([]*Term{r, k}, Implies(Lt(r, a0), sliceOK(sel)), sel))
 	}
 }
